@@ -7,120 +7,15 @@
    The proofs go through "generic" lemmas about an arbitrary loop body F satisfying an equation,
    so that they do not depend on the names or the layout of the generated text. *)
 From Coq Require Import ZArith List Bool Lia Arith.
-From FT Require Import Model.NpRt Model.LabelUtils.
+From FT Require Import Model.NpRt Model.LabelUtils Proofs.NpRtLemmas.
 From FT Require Gen.LabelUtils_gen.
 Import ListNotations.
 Open Scope Z_scope.
 
 Module G := FT.Gen.LabelUtils_gen.
 
-(* ------------------------------------------------------------------ *)
-(* NpRt combinators against the vocabulary of the hand model           *)
-(* ------------------------------------------------------------------ *)
-
-Lemma py_for_fold {A B : Type} (l : list A) (b : B) (f : A -> B -> B) :
-  py_for l b f = fold_left (fun acc x => f x acc) l b.
-Proof. reflexivity. Qed.
-
-Lemma set_nth_upd {A : Type} (g : A -> A) (d : A) : forall (l : list A) (i : nat),
-  set_nth i (g (nth i l d)) l = upd_nth i g l.
-Proof.
-  induction l as [|x r IH]; intros [|i]; cbn [set_nth upd_nth nth]; try reflexivity.
-  now rewrite IH.
-Qed.
-
-Lemma set_nth_nil {A : Type} (i : nat) (x : A) : set_nth i x [] = [].
-Proof. destruct i; reflexivity. Qed.
-
-Lemma upd_nth_nil {A : Type} (i : nat) (g : A -> A) : upd_nth i g [] = [].
-Proof. destruct i; reflexivity. Qed.
-
-Lemma set_nth_idem {A : Type} (x : A) : forall (l : list A) (i : nat),
-  set_nth i x (set_nth i x l) = set_nth i x l.
-Proof.
-  induction l as [|y r IH]; intros [|i]; cbn [set_nth]; try reflexivity.
-  now rewrite IH.
-Qed.
-
-Lemma set_nth_middle {A : Type} (x y : A) (r : list A) : forall pre : list A,
-  set_nth (length pre) x (pre ++ y :: r) = pre ++ x :: r.
-Proof. induction pre as [|z pre IH]; cbn [length app set_nth]; [reflexivity|now rewrite IH]. Qed.
-
-Lemma nth_middle' {A : Type} (y d : A) (r : list A) : forall pre : list A,
-  nth (length pre) (pre ++ y :: r) d = y.
-Proof. induction pre as [|z pre IH]; cbn [length app nth]; [reflexivity|exact IH]. Qed.
-
-(* newf[oldf == s] = c *)
-Lemma mask_assign_paint (s c : Z) : forall newf oldf : list Z,
-  np_mask_assign newf (np_eq_mask oldf s) c = paint_frame oldf s c newf.
-Proof.
-  unfold np_mask_assign, np_eq_mask, paint_frame.
-  induction newf as [|x r IH]; intros [|y o]; cbn [map combine]; try reflexivity.
-  cbn [fst snd]. now rewrite IH.
-Qed.
-
-(* acc[i][old[i] == s] = c *)
-Lemma paint_tie (old acc : list (list Z)) (i s c : Z) :
-  np_setitem acc i (np_mask_assign (np_getitem acc i) (np_eq_mask (np_getitem old i) s) c)
-  = upd_nth (Z.to_nat i) (paint_frame (nth (Z.to_nat i) old []) s c) acc.
-Proof.
-  unfold np_setitem, np_getitem. rewrite mask_assign_paint.
-  exact (set_nth_upd (paint_frame (nth (Z.to_nat i) old []) s c) [] acc (Z.to_nat i)).
-Qed.
-
-Lemma zeros_like_tie old : np_zeros_like old = zeros_like old.
-Proof. reflexivity. Qed.
-
-(* frame[frame != 0] += m *)
-Lemma mask_iadd_shift (m : Z) : forall f : list Z,
-  np_mask_iadd f (np_ne_mask f 0) m = shift_frame m f.
-Proof.
-  unfold np_mask_iadd, np_ne_mask, shift_frame.
-  induction f as [|x r IH]; cbn [map combine]; [reflexivity|].
-  cbn [fst snd]. rewrite IH. f_equal. unfold shift_label.
-  destruct (x =? 0) eqn:E; cbn [negb]; [|reflexivity].
-  apply Z.eqb_eq in E. now subst.
-Qed.
-
-Lemma max_unsigned_fmax f : np_max_unsigned f = fmax f.
-Proof. reflexivity. Qed.
-
-Lemma split01_regroup {A : Type} : forall (s : list nat) (l : list A),
-  np_reshape_split01 s l = regroup s l.
-Proof. induction s as [|n r IH]; intros l; cbn [np_reshape_split01 regroup]; [reflexivity|now rewrite IH]. Qed.
-
-(* ------------------------------------------------------------------ *)
-(* ensure_unique_labels                                                *)
-(* ------------------------------------------------------------------ *)
-
-(* any loop body that shifts frame idx by the running maximum and then updates the maximum *)
-Lemma eul_loop (F : Z -> list (list Z) * Z -> list (list Z) * Z) :
-  (forall idx s m, F idx (s, m) =
-     (np_setitem s idx (shift_frame m (np_getitem s idx)),
-      Z.max m (fmax (shift_frame m (np_getitem s idx))))) ->
-  forall fs pre m,
-    fst (fold_left (fun acc x => F x acc) (map Z.of_nat (seq (length pre) (length fs))) (pre ++ fs, m))
-    = pre ++ eul m fs.
-Proof.
-  intros HF. induction fs as [|f r IH]; intros pre m.
-  - reflexivity.
-  - cbn [length seq map fold_left eul]. rewrite HF.
-    unfold np_getitem, np_setitem. rewrite Nat2Z.id, nth_middle', set_nth_middle.
-    set (f' := shift_frame m f).
-    replace (pre ++ f' :: r) with ((pre ++ [f']) ++ r) by (rewrite <- app_assoc; reflexivity).
-    replace (S (length pre)) with (length (pre ++ [f'])) by (rewrite app_length; cbn [length]; lia).
-    rewrite IH. rewrite <- app_assoc. reflexivity.
-Qed.
-
-Lemma eul_generic (F : Z -> list (list Z) * Z -> list (list Z) * Z) :
-  (forall idx s m, F idx (s, m) =
-     (np_setitem s idx (shift_frame m (np_getitem s idx)),
-      Z.max m (fmax (shift_frame m (np_getitem s idx))))) ->
-  forall fs, fst (py_for (py_range (np_shape0 fs)) (fs, 0) F) = ensure_unique_labels fs.
-Proof.
-  intros HF fs. unfold py_for, py_range, np_shape0, ensure_unique_labels. rewrite Nat2Z.id.
-  exact (eul_loop F HF fs [] 0).
-Qed.
+(* The generic lemmas (NpRt combinators against the hand model, the loop lemmas eul_generic,
+   paint_inner_generic, paint_outer_generic) are in Proofs/NpRtLemmas.v. *)
 
 Theorem gen_ensure_unique_labels_eq : forall fs : list (list Z),
   G.gen_ensure_unique_labels fs = ensure_unique_labels fs.
@@ -140,26 +35,6 @@ Proof.
   unfold np_astype_uint64, np_reshape_merge01, np_shape01.
   match goal with |- context [py_for ?l ?i ?F] => destruct (py_for l i F) as [s m] end.
   apply split01_regroup.
-Qed.
-
-(* ------------------------------------------------------------------ *)
-(* relabel_segmentation_with_track_id                                  *)
-(* ------------------------------------------------------------------ *)
-
-Lemma paint_inner_generic (Gf : Z -> list (list Z) -> list (list Z)) (old : list (list Z)) (c : Z) (mk : Z -> tnode) :
-  (forall n acc, Gf n acc = paint_node old c acc (mk n)) ->
-  forall ns acc, py_for ns acc Gf = fold_left (paint_node old c) (map mk ns) acc.
-Proof.
-  intros H. unfold py_for. induction ns as [|n r IH]; intros acc; cbn [fold_left map]; [reflexivity|].
-  now rewrite H, IH.
-Qed.
-
-Lemma paint_outer_generic (F : list Z -> list (list Z) * Z -> list (list Z) * Z) (old : list (list Z)) (mk : Z -> tnode) :
-  (forall ns acc c, F ns (acc, c) = (fold_left (paint_node old c) (map mk ns) acc, c + 1)) ->
-  forall comps acc c, fst (py_for comps (acc, c) F) = paint_comps old c (map (map mk) comps) acc.
-Proof.
-  intros H. unfold py_for. induction comps as [|ns r IH]; intros acc c; cbn [fold_left map paint_comps]; [reflexivity|].
-  now rewrite H, IH.
 Qed.
 
 Section ByTrackTie.
